@@ -82,6 +82,23 @@ func run(r *mon.Run) {
 			}
 			r.Count("failing-write-before-valid-write")
 		}
+		// a destination whose failing Write keeps a part of the buffer (a full disk, a pipe): error or not, the count the
+		// writer returns is the number of bytes the destination took
+		if i%6 == 2 {
+			for _, lim := range []int{1, 17, 40 + i%200, 1000} {
+				fw := &gen.FaultWriter{Limit: lim, Short: true}
+				cnt, err := b.WriteTo(fw)
+				if err == nil && fw.Faults == 0 {
+					continue // the bundle is smaller than the limit
+				}
+				if cnt != int64(len(fw.Accepted)) {
+					r.Eval("partial-write:WRONG-COUNT")
+					r.Violation(fmt.Sprintf("%s:partial-count:%d", key, lim), fmt.Sprintf("bundle #%d (%s): the destination accepted %d bytes before failing (short write with an error), WriteTo returned %d (err=%v)", i, d, len(fw.Accepted), cnt, err), nil)
+				} else {
+					r.Eval("partial-write:count-agrees")
+				}
+			}
+		}
 		var outputs [][]byte
 		for _, dest := range []string{"plain", "readerfrom", "file", "counting", "appended"} {
 			if dest == "file" && i%8 != 0 || dest == "counting" && i%4 != 1 || dest == "appended" && i%4 != 3 {
